@@ -6,7 +6,8 @@ from common import (Rng, assumptions, coq_bytes, coq_eval, coq_make, harness_bui
                     regen, run_harness, seed, write_evidence, write_replay, TRUSTED_BASE)
 
 PROP = "C10"
-THEOREMS = ["C10_geometry_example_default", "C10_non_bucket_limit_has_top_bucket", "C10_small_budget_refuted"]
+THEOREMS = ["C10_segmentation_independent", "C10_segmentations_agree", "C10_payload_opaque", "C10_all_lengths_accepted",
+            "C10_geometry_example_default", "C10_non_bucket_limit_has_top_bucket", "C10_small_budget_refuted"]
 PRELUDE = ("From NW Require Import Base.Bytes Model.SchemaTypes Gen.Schema Model.Codec Model.Pool Model.Framing "
            "Conf.CodecConf Conf.FramingConf.\n")
 
